@@ -101,7 +101,13 @@ func runSelftest(prop string, filter string, verbose bool) int {
 		}
 		outDir := filepath.Join(verifDir, "out", "selftest", prop, strings.TrimSuffix(filepath.Base(f), ".json"))
 		os.RemoveAll(outDir)
-		solveAll(rr.obls, outDir, 20, false)
+		var toSolve []*obligation
+		for _, o := range rr.obls {
+			if o.expect != "sat" && lg.isClaimed(o) {
+				toSolve = append(toSolve, o)
+			}
+		}
+		solveAll(toSolve, outDir, 20, false)
 		var failed []string
 		for _, o := range rr.obls {
 			if o.expect == "sat" {
